@@ -1,6 +1,7 @@
 package rules
 
 import (
+	"go/token"
 	"go/types"
 
 	"golang.org/x/tools/go/ssa"
@@ -354,4 +355,32 @@ func paramOrSpill(p *ssa.Parameter) func(ssa.Value) bool {
 		}
 		return false
 	}
+}
+
+// globalNeverWritten: no instruction of the module (package initialisers
+// included) stores into the global or takes its address for anything but a
+// load: it keeps its zero value for ever.
+func (c *Ctx) globalNeverWritten(g *ssa.Global) bool {
+	ok := true
+	check := func(fn *ssa.Function) {
+		if fn == nil {
+			return
+		}
+		ir.Instrs(fn, func(in ssa.Instruction) {
+			for _, op := range in.Operands(nil) {
+				if op == nil || *op != ssa.Value(g) {
+					continue
+				}
+				if u, isLoad := in.(*ssa.UnOp); isLoad && u.Op == token.MUL {
+					continue
+				}
+				ok = false
+			}
+		})
+	}
+	for _, fn := range c.P.Funcs {
+		check(fn)
+	}
+	check(g.Pkg.Func("init"))
+	return ok
 }
